@@ -131,10 +131,33 @@ def inplace_rescale_case(run, rng, l):
     return True
 
 
+def extreme_columns_case(run, rng, l, factors, names, sph=False):
+    """all columns of a generalized shell scaled at once by factors many orders of magnitude apart (each inside the +-6 orders of
+    the property), with primitives that only one of the columns uses: same functions up to the signs of the factors, and the same
+    as the single-column shells built from the scaled columns"""
+    scaled, plain = extreme_column_shell(rng, l, factors, sph=sph)
+    other = rand_shell(rng, (l + 1) % 3, [], nprim=2, nseg=1, exp_hi=10.0)
+    specs, specs2 = [plain, other], [scaled, other]
+    env = pf.default_env(rng, specs)
+    signs = np.ones(plain.size + other.size)
+    for m, f in enumerate(factors):
+        if f < 0:
+            signs[m * plain.nfun:(m + 1) * plain.nfun] = -1
+    ok = compare_sets(run, "scale-all-columns", specs, specs2, env, names, signs=signs, extra=tuple(factors))
+    singles = [scaled.copy(coeffs=scaled.coeffs[:, m:m + 1].copy()) for m in range(scaled.nseg)]
+    ok &= compare_sets(run, "split-columns", specs2, singles + [other], env, names, extra=tuple(factors))
+    return ok
+
+
 def check(run):
     rng = run.rng
     quick = run.tier == "quick"
     cheap = [n for n, v in pf.FUNCS.items() if v[2] <= 2]
+    for k, (l, f) in enumerate([(1, (1e6, 1e-6)), (0, (-1e-6, 1e6)), (2, (1e6, 1.0))] if quick else
+                               [(l, f) for l in range(4) for f in ((1e6, 1e-6), (-1e-6, 1e6), (1e6, 1.0), (1.0, -1e-6))]):
+        extreme_columns_case(run, rng, l, f, cheap, sph=bool(k % 2))
+        run.count("all columns scaled at once, factors %g / %g" % f)
+    extreme_columns_case(run, rng, 1, (1e6, 1e-6), ["eri_chemist"])
     for it in range(5 if quick else 30):
         n = rng.randint(1, 3)
         cs = []
